@@ -326,7 +326,7 @@ def objectDefineOwnProperty (E : Env) (k : Key) (d : Desc) (throw : Bool) : M Ob
     else if d.isData && !p.c && !p.w && d.w == some true then reject throw o
     else if d.isData && !p.c && !p.w && (match d.v with | some v => !sameValue E p.v v | none => false) then reject throw o
     else
-      let w' := if d.isData then d.w.getD p.w else false   -- generic descriptor: write trit stays 2
+      let w' := d.w.getD p.w        -- the property stays a data property: `mode1 |= mode0 & 0o100` when writable is unset
       .ok true { o with props := write k ⟨d.v.getD p.v, w', d.e.getD p.e, d.c.getD p.c⟩ o.props }
 
 /-- objectDelete (object_class.go:447) -/
